@@ -87,7 +87,7 @@ def carrier_api():
     main = dict(name='acme/call/v1/things.proto', package=PKG,
                 enums=[dict(name='Kind', values=['KIND_UNSPECIFIED', 'ALPHA', 'BETA'])],
                 messages=[dict(name='Inner', fields=[dict(name='name'), dict(name='level', type='int32'), dict(name='tags', repeated=True)]),
-                          dict(name='Thing', fields=[dict(name='name'), dict(name='count', type='int32')]),
+                          dict(name='Thing', fields=[dict(name='name'), dict(name='count', type='int32'), dict(name='kinds', type='map:string,enum:Kind')]),
                           dict(name='Empty', fields=[dict(name='name'), dict(name='count', type='int32')]),
                           dict(name='Req', fields=req_fields)],
                 services=[dict(name='Things', methods=methods)])
@@ -200,6 +200,19 @@ def run(chk, cases, nshards=12, ads=False, ppd=False):
     module = 'acme.call.v1' if ads else MODULE
     with gen.scratch() as work:
         api, root = materialise_carrier(work, ads=ads, ppd=ppd)
+        # an emitted library that does not import is a verdict about the generator (no RPC can be issued), not a failure of this harness
+        import subprocess
+        e = dict(os.environ)
+        e['PYTHONPATH'] = os.pathsep.join([root, gen.VERIF] + ([e['PYTHONPATH']] if e.get('PYTHONPATH') else []))
+        e.pop(gen.GUARD, None)
+        pr = subprocess.run([gen.PY, '-W', 'ignore', '-c', f'import importlib; importlib.import_module({module!r})'], capture_output=True, env=e,
+                            cwd=root, timeout=300)
+        if pr.returncode != 0:
+            k = 'emitted-library-import' + (':ads' if ads else '') + (':proto-plus-deps' if ppd else '')
+            last = [l for l in pr.stderr.decode('utf-8', 'replace').strip().splitlines() if l.strip()][-1:] or ['?']
+            chk.case(k, nontrivial=True)
+            chk.violation(k, f'the emitted library {module} cannot be imported: {last[0][:300]}', dict(module=module, ads=ads, ppd=ppd))
+            return []
         idx = list(range(len(cases)))
         jobs = []
         for s in range(nshards):
